@@ -28,6 +28,7 @@ import InspectorModel.Proofs.C02Reset
 import InspectorModel.Proofs.C02Copy
 import InspectorModel.Proofs.C02Set
 import InspectorModel.Props.C16
+import InspectorModel.Proofs.Reflect
 import InspectorModel.Props.C17
 import InspectorModel.Props.C18
 import InspectorModel.Props.C19
@@ -299,6 +300,19 @@ theorem samap_no_panic_cfg (cfg : LibCfg) (hc : cfg.samapNilPtrPanics = false) (
     samapCap cfg j p ≠ .panic ∧ samapSet cfg j p src ≠ .panic ∧ (samapCpy cfg j).isSome = true :=
   ⟨C18.get_no_panic_cfg cfg hc j p, C18.cmp_no_panic_cfg cfg hc hs j p op right, C18.len_no_panic_cfg cfg hc j p,
    C18.cap_no_panic_cfg cfg hc j p, C18.set_no_panic_cfg cfg hc j p src, C18.copy_no_panic_cfg cfg hc j⟩
+/-- ReflectInspector.Get (the only method of that inspector that does anything) never panics: every tree, every value
+(nil pointers, nil collections), every path, the four argument forms of the harness. -/
+theorem reflect_get_no_panic (n : Node) (nilRoot : Bool) (v : Val) (p : List Bytes) :
+    (match reflectGetM LibCfg.fixed n nilRoot v p with | .panic => false | _ => true) = true := by
+  unfold reflectGetM
+  cases nilRoot
+  · exact Reflect.getN_no_panic p n v
+  · simp only [if_true]
+    cases p <;> rfl
+/-- The original code indexed the slice without a bounds test. -/
+theorem original_reflect_panics :
+    (match reflectGetM LibCfg.original (.slice { typn := "[]int" } (.basic { typn := "int", typu := "int" })) false
+      (.slice false [.int 1] 1) [strBytes "5"] with | .panic => true | _ => false) = true := by decide
 theorem library_repo_is_fixed : LibCfg.repo = LibCfg.fixed := C16.repo_is_fixed
 end Builtin
 
